@@ -4,7 +4,7 @@ from __future__ import annotations
 import ast
 import itertools
 
-from ..core import AnalysisError, Module, call_attr, call_name, dotted, norm, parent, qualname, short
+from ..core import AnalysisError, func_params, Module, call_attr, call_name, dotted, norm, parent, qualname, short
 from ..driver import Knockout, sub_nth, sub_once
 from ..report import Ctx
 from ..rules import numeric, shapes
@@ -283,6 +283,12 @@ def rule_table_convert(ctx: Ctx) -> None:
             vs = env.get(e.id, [])
             return bool(vs) and all(_resolves(v, pred, depth + 1) for v in vs)
         return False
+    # the requested type: the parameter itself or a local normalised from it (self._get_rep_type_name(<param>))
+    new_type_names = set(func_params(fn)[1:2])
+    for n in ast.walk(fn):
+        if isinstance(n, ast.Assign) and len(n.targets) == 1 and isinstance(n.targets[0], ast.Name) and isinstance(n.value, ast.Call) \
+                and any(isinstance(x, ast.Name) and x.id in new_type_names for a_ in n.value.args for x in ast.walk(a_)):
+            new_type_names.add(n.targets[0].id)
     sets = [n for n in ast.walk(fn) if isinstance(n, ast.Assign) and any(norm(t) == "self._rep_data" for t in n.targets)]
     if not sets:
         raise AnalysisError("convert_representation: no assignment of self._rep_data")
@@ -290,7 +296,8 @@ def rule_table_convert(ctx: Ctx) -> None:
         v = a_.value
         ok = (isinstance(v, ast.Call) and len(v.args) == 1
               and _resolves(v.func, lambda e: isinstance(e, ast.Subscript) and isinstance(e.value, ast.Name) and e.value.id == tname
-                            and norm(e.slice).replace(" ", "") in ("(self._rep_type,rep_type)", "(self._rep_type,%s)" % "rep_type"))
+                            and isinstance(e.slice, ast.Tuple) and len(e.slice.elts) == 2 and norm(e.slice.elts[0]) in ("self._rep_type", "self.rep_type")
+                            and isinstance(e.slice.elts[1], ast.Name) and e.slice.elts[1].id in new_type_names)
               and _resolves(v.args[0], lambda e: norm(e) in ("self._rep_data", "self.rep_data")))
         if ok:
             ctx.ok("table.convert", m, a_, what="new representation = table[(old type, new type)](current data)")
